@@ -176,32 +176,3 @@ Print Assumptions C08_limit_coincidence_integrand.
 Print Assumptions C08_limit_singles_integrand.
 Print Assumptions C08_pointwise_partial.
 Print Assumptions C08_ratio_structure.
-
-(* ---- composition with the generated kinematics / wrappers / grid-resolution / simple phase-matching models (Proofs/Compose_*.v) ---- *)
-From SpdVerif Require Import Gen.Wrappers Proofs.Compose_wrappers_eff.
-
-(* What SPDC::efficiencies(ranges, integrator) returns, following the forwarders as translated from src/spdc/spdc_obj.rs and
-   src/spdc/efficiencies.rs (Gen/Wrappers.v): SPDC::efficiencies -> efficiencies -> SPDC::counts_{coincidences, singles_signal,
-   singles_idler} -> the three rate functions of counts.rs (cc, cs, ci: any functions of (spdc, ranges, integrator)) ->
-   efficiencies_from_counts, whose three arguments arrive in the order (coincidences, signal singles, idler singles).  spdc_efficiencies
-   is that composition with the generated efficiencies_from_counts at its end. *)
-Theorem C08_spdc_efficiencies : forall (cc cs ci : spdc eff_val -> eff_val -> eff_val -> R) s ranges integrator,
-  spdc_efficiencies cc cs ci s ranges integrator =
-  EEff (efficiencies_from_counts (cc s ranges integrator) (cs s ranges integrator) (ci s ranges integrator)).
-Proof. exact wrap_efficiencies_model. Qed.
-Print Assumptions C08_spdc_efficiencies.
-
-(* hence the property's clause on the method itself: coincidences not above either singles rate => no partial operation of the body
-   fails and the three efficiencies SPDC::efficiencies returns lie in [0, 1] *)
-Theorem C08_spdc_efficiencies_in_unit_interval : forall (cc cs ci : spdc eff_val -> eff_val -> eff_val -> R) s ranges integrator,
-  let c := cc s ranges integrator in let rs := cs s ranges integrator in let ri := ci s ranges integrator in
-  0 <= c -> c <= rs -> c <= ri ->
-  efficiencies_from_counts_defined c rs ri /\
-  exists e, spdc_efficiencies cc cs ci s ranges integrator = EEff e /\
-    0 <= eff_signal e <= 1 /\ 0 <= eff_idler e <= 1 /\ 0 <= eff_symmetric e <= 1.
-Proof. exact wrap_efficiencies_defined_and_bounded. Qed.
-Print Assumptions C08_spdc_efficiencies_in_unit_interval.
-
-(* non-vacuity: rates 3, 4, 5 Hz *)
-Example C08_spdc_efficiencies_example : 0 <= 3 /\ 3 <= 4 /\ 3 <= 5.
-Proof. repeat split; Lra.lra. Qed.
